@@ -235,6 +235,32 @@ def _c20(prop, tier):
             with open(cur_p, "w") as f:
                 f.writelines(rest)
             cur = smallfam.validate("Retry_Trace", "TSpec", cur_p, consts(k), wd)
+    # the same bound through the command line: tools/check wraps its network getter in a RetryHTTPSGetter built from -timeout / -max_retry_delay
+    tool = _build_check_tool()
+    base = dict(field="mr_td", cfg="absent", flag="absent", shape="full", fmt="textproto", quote="valid", inform="bin", roots="flagGood", net="off", crl="off",
+                present="plain", cfgAny="absent", retry="short")
+    tcases = [dict(base, net=n, retry=r, id=9000 + i) for i, (n, r) in enumerate([("unreachable", "short"), ("serverError", "short"), ("unreachable", "zeroDelay"), ("unreachable", "negativeDelay"),
+                                                                              ("unreachable", "zeroTimeout"), ("honest", "short")])]
+    tsub = _os.path.join(wd, "tool")
+    _os.makedirs(tsub, exist_ok=True)
+    tcp = _os.path.join(tsub, "cases.jsonl")
+    with open(tcp, "w") as f:
+        for c in tcases:
+            f.write(_json.dumps(c) + "\n")
+    ttrace = _os.path.join(tsub, "trace.ndjson")
+    C.run_harness(binary, "checktool", tcp, ttrace, _os.path.join(tsub, "s.json"), tier, extra=["-arg", tool])
+    tv = smallfam.validate("CheckTool_Trace", "TSpec", ttrace, "  Budget = 1\n", tsub)
+    if not tv.ok:
+        if not tv.postcondition_false:
+            raise C.Infra("CheckTool trace validation failed in C20:\n" + tv.out[-2000:])
+        idx = smallfam.unconsumed_index(tv)
+        evs, j, kk = smallfam.call_block(ttrace, idx)
+        call = evs[0]
+        key = "tool:net=%s,retry=%s" % (call["input"]["net"], call["input"]["retry"])
+        rp = C.write_replay(prop, "tool-%s" % call["case"], dict(property=prop, seed=C.seed(), tier=tier, case=call["input"], observed=evs, key=key, tool=True))
+        if not smallfam.reproduce(prop, rp, binary, tsub, "checktool", "CheckTool_Trace", "TSpec", "  Budget = 1\n", tier, harness_extra=["-arg", tool]):
+            raise C.Infra("rejected tool run did not reproduce in isolation: %s" % rp)
+        violations.append(dict(key=key, replay=rp, text="rejected: %s" % _json.dumps(evs[min(idx - 1 - j, len(evs) - 1)])[:200]))
     code = C.settle(prop, violations)
     https = _https_note(prop, wd, binary, tier)
     cov = {"states": states, "transitions": gen, "traces_validated_against_impl": summ["runs"], "events_validated": summ["events"], "transport_specification_HttpsGet": https,
@@ -250,6 +276,8 @@ def _c20(prop, tier):
 
 def _c20_replay(prop, path):
     rp = _json.load(open(path))
+    if rp.get("tool"):
+        return smallfam.replay(prop, path, driver="checktool", trace_module="CheckTool_Trace", trace_consts="  Budget = 1\n", harness_extra=["-arg", _build_check_tool()])
     k = (rp["case"]["timeout"], rp["case"]["max"])
     consts = "  Timeout = %d\n  Max = %d\n  Init2 = 2000\n  DurMax = 1\n  FailsSet = {0}\n  Slack = %d\n" % (k[0], k[1], RETRY_SLACK_MS)
     return smallfam.replay(prop, path, driver="retry", trace_module="Retry_Trace", trace_consts=consts)
@@ -419,13 +447,20 @@ def _c10(prop, tier):
                              assumptions=["endpoint responses are drawn from the grammar of spec/PcsResponse.tla; altered members are re-signed by the honest signer so that the odd values are used"], **nc)
     _, v4, c4 = smallfam.run(prop, tier, mc_module="PckExt_MC", mc_cfg=_pckext_cfg(tier), driver="pckext", key_fn=_key_pckext, required_actions=("Outer", "TopElem", "TcbElem", "Finish"),
                              assumptions=["SGX extension DER: every case of PckExt (wrong types, lengths, trailing bytes, truncation, missing elements)"], **nc)
-    return smallfam.combine(prop, tier, [("bytes", v1, c1), ("messages", v2, c2), ("responses", v3, c3), ("sgx-extension", v4, c4)], t0)
+    # what a PCS endpoint may send over the wire reaches the library through its own network getter first
+    _, v5, c5 = smallfam.run(prop, tier, mc_module="HttpsGet_MC", mc_cfg="SPECIFICATION Spec\nINVARIANTS TypeOK DataExactlyOnSuccess BoundedRedirects ExportCase\nCHECK_DEADLOCK FALSE\n",
+                             driver="httpsget", key_fn=lambda call, evs: "https:" + ",".join("%s=%s" % (k, call["input"][k]) for k in sorted(call["input"]) if k != "id"),
+                             required_actions=("Connect", "Handshake", "Exchange", "ReadBody"),
+                             assumptions=["HTTP responses of every shape of spec/HttpsGet.tla served by TLS servers inside the harness to trust.SimpleHTTPSGetter (HTTPS_PROXY, SSL_CERT_FILE)"], **nc)
+    return smallfam.combine(prop, tier, [("bytes", v1, c1), ("messages", v2, c2), ("responses", v3, c3), ("sgx-extension", v4, c4), ("transport", v5, c5)], t0)
 
 
 def _c10_replay(prop, path):
     rp = _json.load(open(path))
     case = rp.get("case") or {}
-    if "f" in case:
+    if "transport" in case:
+        drv = "httpsget"
+    elif "f" in case:
         drv = "wire"
     elif "top" in case:
         drv = "pckext"
@@ -722,7 +757,7 @@ def _build_check_tool():
 
 def _key_c19(call, evs):
     i = call["input"]
-    b = dict(field="mr_td", cfg="absent", flag="absent", shape="full", fmt="textproto", quote="valid", inform="bin", roots="flagGood", net="off", crl="off", present="plain")
+    b = dict(field="mr_td", cfg="absent", flag="absent", shape="full", fmt="textproto", quote="valid", inform="bin", roots="flagGood", net="off", crl="off", present="plain", cfgAny="absent", retry="short")
     dev = ["%s=%s" % (k, i[k]) for k in sorted(i) if k in b and i[k] != b[k] and k not in ("field",)]
     if i["cfg"] != "absent" or i["flag"] != "absent":
         dev.insert(0, "field=" + i["field"])
